@@ -212,3 +212,37 @@ Section Real2.
     else Err ValueError.
 
 End Real2.
+
+(* ------------------------------------------------------------------ calculate_pval_from_gammafit_to_trials *)
+(* statement order of the code: threshold check, truncation to n_max, THEN the
+   tail selection; (N_prime, Ntot, tail handed to the fit) *)
+Definition gammafit_counts (ts : list Z) (thr eta n_max : Z) : res (Z * Z * list Z) :=
+  if gf_below_eta thr eta then Err ValueError
+  else
+    let ts' := if gf_trunc_test n_max (zlen ts) then py_slice ts 0 (gf_trunc_upper n_max) else ts in
+    let tail := filter (fun x => gf_tail_mask x eta) ts' in
+    do kn <- py_truediv_ints (zlen tail) (zlen ts');
+    Ok (fst kn, snd kn, tail).
+
+Section Real3.
+  Context {T : Type} (N : Num T).
+  (* the fitted survival function: scipy.optimize.minimize of the truncated gamma
+     likelihood on (eta, tail) followed by scipy.stats.gamma.sf — an oracle *)
+  Context (sf : Z -> list Z -> Z -> T).
+
+  Definition pval_gammafit (ts : list Z) (thr eta n_max : Z) : res (T * T) :=
+    do c <- gammafit_counts ts thr eta n_max;
+    let '(k, n, tail) := c in
+    let alpha := gf_alpha N k n in
+    let norm := gf_norm N alpha (sf eta tail (gf_sf0_arg eta)) in
+    Ok (gf_p N norm (sf eta tail (gf_sf1_arg thr)), gf_psigma N).
+
+  (* calculate_pval_from_trials_mixed with both branches evaluated *)
+  Definition pval_mixed_full (op : comp_op) (ts : list Z) (thr switch_at_ts : Z) (eta : option Z) (n_max : Z)
+    : res (T * T) :=
+    do d <- pval_mixed op ts thr switch_at_ts eta n_max;
+    match d with
+    | ByTrials _ _ => pval_trials N op ts thr
+    | ByGammaFit t e m => pval_gammafit ts t e m
+    end.
+End Real3.
